@@ -182,7 +182,9 @@ class ProgramText:
         top = {"vec": "vector", "map": "map"}.get(top, top)
         refs = sorted(x for x in marks if x in ("enum", "struct", "xenum", "xstruct", "qenum", "qstruct"))
         if m is not None and m["arr"]:
-            return "array:of=" + ("+".join(refs) if refs else top)
+            # one name per array member: the reference most likely to matter (other module > qualified > plain)
+            first = [x for x in ("xstruct", "xenum", "qstruct", "qenum", "enum", "struct") if x in refs]
+            return "array:of=" + (first[0] if first else top)
         parts = [head, top]
         if tree and tree["k"] in ("vec", "map") and refs:
             parts.append("of=" + "+".join(refs))
